@@ -15,4 +15,5 @@ INVARIANT XsdComplete
 INVARIANT NothingAlien
 INVARIANT ProjectionSound
 INVARIANT TableBalanced
+INVARIANT GenClosed
 CHECK_DEADLOCK FALSE
